@@ -179,7 +179,7 @@ DoMate(e) ==
             \cup F(C04_Traits(c, p1, p2, Range(e.avg)), "C04:traits")
             \cup F(e.p1post = p1 /\ e.p2post = p2, "C04:parent modified")
             \cup F(WellFormed(c) /\ Retains(c, p1) /\ Retains(c, p2) /\ e.gok, "C01:child not well-formed / not expressible")
-            \cup F(Cells(c) \cap (Cells(p1) \cup Cells(p2)) = {}, "C04:child shares an object with a parent")
+            \cup F((Cells(c) \cup Refs(c)) \cap (Cells(p1) \cup Cells(p2)) = {}, "C04:child shares an object with a parent")
             \cup F(MeaningOK(c) /\ RolesOK(c), "C03:number with two meanings")
             \cup F(OthersUnchanged(e, {e.cid}), "C06:an uninvolved genome changed")
             \cup F(mp => TopoSeq(c) = [k \in DOMAIN MultipointInns(p1, p2, P1Better(p1, p2, e.cmp)) |->
